@@ -24,28 +24,31 @@ def string_write_rules(prog, rep):
         raise AnalysisError(f"BTSString.write: statement not covered by the length algebra: `{norm(head(st))}`")
     # --- refuse-before-return
     want = L - S  # raise iff L + 1 > size  <=>  L - size >= 0
-    for b, st, nonneg, guards in wa.returns:
+    fits = S - L - 1
+    for b, st, nonneg, guards, value in wa.returns:
         good = [g for g in guards if g[0] is not None and g[0] == want]
-        if good:
+        if good and any(q == fits for q in nonneg):
             g = good[0]
             if g[1] in VALUE_ERRORS:
-                rep.ok("str-refuse-before-return", f"{fq}: return is preceded by `raise {g[1]}` exactly when len(encoded)+1 > size", nontrivial=True,
-                       sample={"guard": norm(g[2].test), "normal form": f"raise iff {want} >= 0"})
+                rep.ok("str-refuse-before-return", f"{fq}: the return is reached exactly when len(encoded)+1 <= size; otherwise `raise {g[1]}`", nontrivial=True,
+                       sample={"guard": g[3], "normal form": f"raise iff {want} >= 0"})
             else:
                 rep.fail("str-refuse-before-return", mod, fq, g[2], f"over-long text is refused with {g[1]}, not ValueError")
         else:
-            if guards and guards[0][0] is not None:
-                P = guards[0][0]
+            dec = [g for g in guards if g[0] is not None]
+            if dec:
+                P = dec[0][0]
                 d = P - want
                 how = "a string that exactly fills the field without room for its terminator is accepted" if (d.is_const() and d.const_value() < 0) else \
                       "a string that still fits (with its terminator) is refused" if d.is_const() else "the condition is not `len(encoded)+1 > size`"
-                rep.fail("str-refuse-before-return", mod, fq, guards[0][2], f"length check is `{norm(guards[0][2].test)}` (raise iff {P} >= 0); required: raise iff {want} >= 0: {how}")
+                rep.fail("str-refuse-before-return", mod, fq, dec[0][2], f"length check is `{dec[0][3]}` (raise iff {P} >= 0); required: raise iff {want} >= 0: {how}",
+                         construct="BTSString.write length check")
             else:
                 rep.fail("str-refuse-before-return", mod, fq, st, "the return is not dominated by a length check that raises ValueError for text that does not fit with its terminator",
                          construct="BTSString.write length check")
         # --- terminated
         if b is None:
-            rep.fail("str-terminated", mod, fq, st, f"returned expression `{norm(st.value)}` is not a concatenation the length algebra understands")
+            rep.fail("str-terminated", mod, fq, st, f"returned expression `{norm(value) if value is not None else None}` is not a concatenation the length algebra understands")
             continue
         parts = b.parts
         ok_struct = len(parts) >= 2 and parts[0][0] == "enc" and parts[1][0] == "const" and parts[1][1][:1] == b"\x00" and set(parts[1][1]) <= {0} \
@@ -118,22 +121,59 @@ def run(prog, rep):
         else:
             rep.fail("str-codec-agreement", mod, f"BTSString.{mname}", d, f"reader default encoding {norm(d)} differs from the writer's windows-1252")
     # bread forwards size and encoding to read
+    from ..facts import path_returns, return_leaves
+
+    def call_args(call, names):
+        """positional + keyword arguments of a call, by the callee's parameter names"""
+        out = {}
+        for n_, a in zip(names, call.args):
+            out[n_] = a
+        for k in call.keywords:
+            if k.arg:
+                out[k.arg] = k.value
+        return out
+
     br = prog.need_method(cls, "bread")
-    calls = [c for c in walk_no_nested(br.node) if isinstance(c, ast.Call) and norm(c.func) == "BTSString.read"]
-    if calls and norm(calls[0].args[0]) == br.params[1] and isinstance(calls[0].args[1], ast.Call) and norm(calls[0].args[1].func).endswith(".read") \
-            and norm(calls[0].args[1].args[0]) == br.params[1]:
+    rd = prog.need_method(cls, "read")
+    okk = False
+    leaves = return_leaves(br.node)
+    if leaves:
+        okk = True
+        for _, v, _ in leaves:
+            if not (isinstance(v, ast.Call) and norm(v.func) in ("BTSString.read", "cls.read")):
+                okk = False
+                continue
+            a = call_args(v, rd.params)
+            sz, dat = a.get(rd.params[0]), a.get(rd.params[1]) if len(rd.params) > 1 else None
+            if not (sz is not None and norm(sz) == br.params[1] and isinstance(dat, ast.Call) and isinstance(dat.func, ast.Attribute) and dat.func.attr == "read"
+                    and norm(dat.func.value) == br.params[0] and len(dat.args) == 1 and norm(dat.args[0]) == br.params[1]):
+                okk = False
+    if okk:
         rep.ok("str-call-sites", "BTSString.bread reads exactly `size` bytes and cuts them with read()")
     else:
         rep.fail("str-call-sites", mod, "BTSString.bread", br.node, "bread does not read exactly `size` bytes for read(size, ...)", construct="BTSString.bread")
     # bwrite writes exactly write(size, data)
     bw = prog.need_method(cls, "bwrite")
-    okk = False
-    for c in walk_no_nested(bw.node):
-        if isinstance(c, ast.Call) and isinstance(c.func, ast.Attribute) and c.func.attr == "write" and norm(c.func.value) == bw.params[0] and c.args:
-            a = c.args[0]
-            if isinstance(a, ast.Call) and norm(a.func) == "BTSString.write" and [norm(x) for x in a.args] == bw.params[1:3]:
-                okk = True
-    if okk:
+    wr = prog.need_method(cls, "write")
+    okk = True
+    nw = 0
+    for pe in path_returns(bw.node):
+        if pe.kind == "raise":
+            continue
+        ws = [x for e in pe.effects for x in ast.walk(e) if isinstance(x, ast.Call) and isinstance(x.func, ast.Attribute) and x.func.attr == "write"
+              and norm(x.func.value) == bw.params[0]]
+        if len(ws) != 1 or not ws[0].args:
+            okk = False
+            continue
+        nw += 1
+        a = ws[0].args[0]
+        if not (isinstance(a, ast.Call) and norm(a.func) in ("BTSString.write", "cls.write")):
+            okk = False
+            continue
+        ca = call_args(a, wr.params)
+        if [norm(ca[p_]) if p_ in ca else None for p_ in wr.params[:2]] != bw.params[1:3]:
+            okk = False
+    if okk and nw:
         rep.ok("str-call-sites", "BTSString.bwrite writes exactly the bytes write(size, data) returns")
     else:
         rep.fail("str-call-sites", mod, "BTSString.bwrite", bw.node, "bwrite does not write exactly BTSString.write(size, data)", construct="BTSString.bwrite")
